@@ -663,3 +663,204 @@ def c14(tier, replay=None):
     chk.part("harness", **info)
     chk.assumptions += ["malformedness of a variant is decided by the harness' independent SMT-LIB front end (harness/src/smt.rs)"]
     return chk.finish()
+
+
+# ------------------------------------------------------------------------------------------------
+SOLVER_PATH = str(pv.VERIF / "solver" / "bin")
+
+
+def run_mc(chk, kind, nsys, kmax, T, name, scripts=False, shards=14, extra=()):
+    """model-checking runs against the reference solver environment, sharded over harness processes"""
+    env = {"PATH": SOLVER_PATH + ":" + os.environ.get("PATH", "")}
+    jobs = []
+    for s in range(shards):
+        args = ["mc", "--out", chk.work / f"{name}_{s}.ndjson", "--kind", kind, "--systems", nsys, "--kmax", kmax, "--shard", s, "--shards", shards]
+        if T:
+            args += ["--thorough", 1]
+        if scripts:
+            args += ["--scripts", 1]
+        args += list(extra)
+        jobs.append((args, env))
+    res = pv.pv_parallel(jobs, timeout=7200)
+    trace = chk.work / f"{name}.ndjson"
+    inc = 0
+    with open(trace, "w") as f:
+        for s, p in enumerate(res):
+            inc += json.loads(p.stdout.strip().splitlines()[-1]).get("incidents", 0)
+            f.write((chk.work / f"{name}_{s}.ndjson").read_text())
+            (chk.work / f"{name}_{s}.ndjson").unlink()
+    return trace, inc
+
+
+def mc_rejects(chk, trace, props):
+    rejects, st = pv.validate("Trace_MC", pv.SPEC / "Trace.cfg", trace, shards=14, boundary='"ev":"Sys"')
+    chk.add_states(st["generated"], st["distinct"])
+    lines = None
+    for rj in rejects:
+        if rj.get("prop") not in props and rj.get("prop") != "ALL":
+            continue
+        if lines is None:
+            lines = Path(trace).read_text().splitlines()
+        seg = segment(lines, rj["l"] - 1, '"ev":"Sys"')
+        run = seg[-1]
+        msg = (rj.get("msg") or "")
+        cls = ""
+        if "unknown constant" in msg or "invalid declaration" in msg or "already declared" in msg or "already defined" in msg:
+            cls = "solver rejected the script"
+        chk.report({"why": rj["why"], "cls": cls, "engine": run.get("cfg", {}).get("engine", "")},
+                   {"system": seg[0], "run": {k: v for k, v in run.items() if k != "script"}, "tlc": rj})
+    return st
+
+
+def count_runs(trace):
+    n = {"runs": 0, "fail": 0, "success": 0, "other": 0, "systems": 0, "block_events": 0}
+    with open(trace) as f:
+        for line in f:
+            if '"ev":"Sys"' in line[:40]:
+                n["systems"] += 1
+            elif '"ev":"Run"' in line:
+                r = json.loads(line)
+                n["runs"] += 1
+                k = r["outcome"]["kind"]
+                n[k if k in ("fail", "success") else "other"] += 1
+                n["block_events"] += sum(1 for e in r["events"] if e["ev"] == "Block")
+    return n
+
+
+def c02(tier, replay=None):
+    chk = Check("C02", tier, "model_checking")
+    T = chk.thorough()
+    # (M) the BMC loop over every explicit 3-state system: verdict exact, witness set exact, terminates
+    cfg = pv.write_cfg(chk.work / "Bmc.cfg", spec="Spec", constants={"NS": 3, "KMax": 3}, invariants=("VerdictExact", "WitnessOK"), properties=("Terminates",))
+    r = pv.tlc_ok("Bmc", cfg, workers=8, timeout=3000, xmx="6g")
+    chk.add_states(r.generated, r.distinct)
+    chk.part("Bmc_model", states=r.distinct)
+    if replay:
+        rep = json.loads(Path(replay).read_text())
+        trace = chk.work / "bmc.ndjson"
+        pv.write_ndjson(trace, [rep["detail"]["system"], rep["detail"]["run"]])
+        inc = 0
+    else:
+        trace, inc = run_mc(chk, "bmc", 600 if T else 90, 8 if T else 5, T, "bmc")
+    st = mc_rejects(chk, trace, {"C02"})
+    n = count_runs(trace)
+    chk.cov["traces_validated_against_impl"] = n["runs"]
+    chk.cov["evaluations"] = n["runs"]
+    chk.cov["distinct_nontrivial"] = n["systems"]
+    chk.cov["rule"] = ("seeded random systems (bit-vector and small array states, with/without init and next, constant states, inputs, constraints, 1-3 bad "
+                       "states, shared sub-expressions) and crafted counters; real bmc for every k <= kmax against the proxy under the z3 / yices2 / "
+                       "bitwuzla / cvc5 capability profiles, both bad-state checking modes, with / without prior simplification, with diversified models; "
+                       "TLC computes the minimal bad depth of each system by BFS and judges every verdict; distinct = systems")
+    chk.part("runs", **n, incidents=inc)
+    chk.sample({"counts": n})
+    sample_lines(chk, trace, 2, lambda r: {"ev": r["ev"], "id": r["id"], "cfg": r.get("cfg"), "outcome": r.get("outcome")})
+    chk.assumptions += ["z3 4.8.12 answers the small QF_ABV queries correctly (cross-checked against TLC's reachability on every run)",
+                        "systems have <= 6 state bits and <= 3 input bits so that TLC's BFS is exhaustive"]
+    return chk.finish()
+
+
+def c03(tier, replay=None):
+    chk = Check("C03", tier, "model_checking")
+    T = chk.thorough()
+    if replay:
+        rep = json.loads(Path(replay).read_text())
+        trace = chk.work / "bmc.ndjson"
+        pv.write_ndjson(trace, [rep["detail"]["system"], rep["detail"]["run"]])
+        traces = [trace]
+    else:
+        t1, _ = run_mc(chk, "bmc", 500 if T else 70, 6 if T else 4, T, "bmc")
+        t2, _ = run_mc(chk, "pdr", 300 if T else 40, 0, T, "pdr")
+        traces = [t1, t2]
+    tot = {"runs": 0, "fail": 0, "systems": 0}
+    for t in traces:
+        mc_rejects(chk, t, {"C03"})
+        n = count_runs(t)
+        for k in tot:
+            tot[k] += n[k]
+        sample_lines(chk, t, 2, lambda r: {"ev": r["ev"], "id": r["id"], "witness": r.get("witness"), "cfg": r.get("cfg")})
+    chk.cov["traces_validated_against_impl"] = tot["fail"]
+    chk.cov["evaluations"] = tot["runs"]
+    chk.cov["distinct_nontrivial"] = tot["fail"]
+    chk.cov["rule"] = ("every Fail(Witness) returned by the real bmc and pdr (which falls back to bmc) runs of C02 / C10 - all solver profiles, model "
+                       "diversification seeds, both checking modes - replayed by TLC on the TSys semantics of the system the engine was given; distinct = "
+                       "witnesses")
+    chk.part("runs", **tot)
+    return chk.finish()
+
+
+def c10(tier, replay=None):
+    chk = Check("C10", tier, "model_checking")
+    T = chk.thorough()
+    # (M) PDR over all explicit 3-state systems and all solver answer choices
+    for cores in ("TRUE", "FALSE"):
+        cfg = pv.write_cfg(chk.work / f"Pdr_{cores}.cfg", spec="Spec", constants={"NS": 3, "MaxFrames": 6, "UseCores": cores},
+                           invariants=("InitKept", "InfKept", "FrameSound", "InfSound", "VerdictOK", "Definite"), properties=("Terminates",))
+        r = pv.tlc_ok("Pdr", cfg, workers=8, timeout=3000, xmx="6g")
+        chk.add_states(r.generated, r.distinct)
+        chk.part(f"Pdr_model_cores_{cores}", states=r.distinct)
+    if replay:
+        rep = json.loads(Path(replay).read_text())
+        trace = chk.work / "pdr.ndjson"
+        pv.write_ndjson(trace, [rep["detail"]["system"], rep["detail"]["run"]])
+        inc = 0
+    else:
+        trace, inc = run_mc(chk, "pdr", 700 if T else 80, 0, T, "pdr", extra=["--stall", 60])
+    mc_rejects(chk, trace, {"C10"})
+    n = count_runs(trace)
+    chk.cov["traces_validated_against_impl"] = n["runs"]
+    chk.cov["evaluations"] = n["runs"] + n["block_events"]
+    chk.cov["distinct_nontrivial"] = n["systems"]
+    chk.cov["rule"] = ("seeded random bit-vector systems (all states have a next function) and crafted counters that are safe only by an inductive invariant; "
+                       "real pdr against the proxy: z3 with its own / full / deletion-minimised / random-superset unsat cores, generalisation disabled, "
+                       "bitwuzla / cvc5 / yices2 (push-pop, no cores) profiles, diversified models; TLC computes full reachability, judges every verdict and "
+                       "every blocked cube reported by the hook; distinct = systems")
+    chk.part("runs", **n, incidents=inc)
+    chk.sample({"counts": n})
+    sample_lines(chk, trace, 2, lambda r: {"ev": r["ev"], "id": r["id"], "cfg": r.get("cfg"), "outcome": r.get("outcome"), "events": r.get("events", [])[:6]})
+    chk.assumptions += ["systems have <= 6 state bits (diameter far below MAX_FRAMES = 1000)", "z3 4.8.12 is the only back end (cvc5 is exercised as a capability profile)"]
+    return chk.finish()
+
+
+def c04(tier, replay=None):
+    chk = Check("C04", tier, "model_checking")
+    T = chk.thorough()
+    # (M) the ordering of define/declare blocks of init_at(0) + unroll for every use-classification of a shared signal
+    cfg = pv.write_cfg(chk.work / "Unroll.cfg", invariants=("Report",))
+    r = pv.tlc_ok("Unroll", cfg, workers=4, timeout=1200)
+    chk.add_states(r.generated, r.distinct)
+    chk.part("Unroll_model", configurations=r.distinct, note="configurations the model reports are the design-level image of known finding KF-C04-init-order")
+    env = {"PATH": SOLVER_PATH + ":" + os.environ.get("PATH", "")}
+    trace = chk.work / "trace.ndjson"
+    if replay:
+        rep = json.loads(Path(replay).read_text())
+        pv.write_ndjson(trace, [rep["detail"]["record"]])
+        info = {"enc": 1, "runs": 0}
+    else:
+        shards = 14
+        jobs = [(["enc", "--out", chk.work / f"enc_{s}.ndjson", "--systems", 1500 if T else 160, "--k", 2, "--shard", s, "--shards", shards], env) for s in range(shards)]
+        pv.pv_parallel(jobs)
+        t2, _ = run_mc(chk, "bmc", 150 if T else 28, 3, False, "bmc", scripts=True)
+        t3, _ = run_mc(chk, "pdr", 60 if T else 14, 0, False, "pdr", scripts=True)
+        n_enc = 0
+        with open(trace, "w") as f:
+            for s in range(shards):
+                t = (chk.work / f"enc_{s}.ndjson").read_text()
+                n_enc += t.count("\n")
+                f.write(t)
+            for t in (t2, t3):
+                for line in open(t):
+                    if '"ev":"Run"' in line:
+                        f.write(line)
+        info = {"enc": n_enc, "runs": count_runs(t2)["runs"] + count_runs(t3)["runs"]}
+    st = batch_check(chk, "Trace_C04", trace, lambda rj, rec: {"why": rj["why"], "cls": rj.get("cls", "")},
+                     lambda rj, rec: {"record": {k: v for k, v in rec.items() if k not in ("events",)}, "tlc": rj}, shards=14)
+    chk.cov["traces_validated_against_impl"] = st["records"]
+    chk.cov["evaluations"] = st["records"]
+    chk.cov["distinct_nontrivial"] = info["enc"]
+    chk.cov["rule"] = ("direct use of UnrollSmtEncoding on seeded systems (random, and a family with one signal shared between init / next / bad roots in every "
+                       "combination): init_at(0) + 2 x unroll and init_at(1) + unroll, script recorded by SmtLibSolverCtx's replay file and tokenised "
+                       "independently; TLC runs the SmtScript machine over every command and evaluates the script under every start state and input "
+                       "sequence against TSys; plus the replay scripts of real bmc / pdr runs (well-formedness); distinct = encoder scripts")
+    sample_lines(chk, trace, 2, lambda r: {"id": r["id"], "text": r.get("text", [])[:25]})
+    chk.part("harness", **info)
+    return chk.finish()
